@@ -18,6 +18,9 @@ def scenarios(ck):
         ("apex-update", dict(base, tunnels=[TUN(0), CUSTOM]), dict(apex="gw2.test:443")),
         ("cert-renewal", dict(base, tunnels=[TUN(0), CUSTOM]), dict(cert="gen:%d:720" % (ck.seed + 1000))),
         ("first-certificate", dict(key="gen", apex="gw.test:443", tunnels=[TUN(0)]), dict(cert="gen:%d:700" % ck.seed)),
+        # the configuration path is a symbolic link to the file (dotfile managers, mounted secrets)
+        ("symlink-tunnels-shrink", dict(base, tunnels=big), dict(set_tunnels=True, tunnels=[TUN(0)])),
+        ("symlink-cert-renewal", dict(base, tunnels=[TUN(0), CUSTOM]), dict(cert="gen:%d:720" % (ck.seed + 2000))),
     ]
     if ck.thorough:
         for k in range(6):
@@ -50,6 +53,10 @@ def record_case(ck, binary, d, name, old_spec, change):
         raise vf.Infra("mkcfg gave no summary")
     with open(path, "rb") as f:
         old_bytes = f.read()
+    if name.startswith("symlink-"):
+        real = os.path.join(d, "client-%s.real.yaml" % name)
+        os.rename(path, real)
+        os.symlink(os.path.basename(real), path)
     trace = ck.path("strace-%s.txt" % name)
     wrap = ["strace", "-f", "-xx", "-s", "1000000", "-o", trace, "-e", "trace=" + clientlib.STRACE_SYSCALLS]
     res = ck.drive(binary, ["save", path], input_obj=change, wrap=wrap)
@@ -88,7 +95,7 @@ def mode_of(case):
 
 
 def run(ck):
-    ck.rule = ("cases = configuration saves (tunnels grow / shrink, apex update, certificate renewal, first certificate; seeded sizes) executed by "
+    ck.rule = ("cases = configuration saves (tunnels grow / shrink, apex update, certificate renewal, first certificate, and saves through a path that is a symbolic link; seeded sizes) executed by "
                "the real Config.writeFile in a child process under strace; evaluations = file-operation boundaries, each reconstructed as a disk "
                "image and parsed with the real NewConfig; non-trivial = boundaries strictly between the first and the last file operation of the save (the process would stop in the middle of it)")
     binary = ck.build("client")
